@@ -5,6 +5,7 @@
 From Coq Require Import List String NArith Bool.
 Import ListNotations.
 Require Import Verif.Conc.Keyed Verif.Conc.KeyedProps Verif.Conc.Post Verif.Conc.PostProps Verif.Gen.ConcShape.
+Require Import Verif.Conc.Infer Verif.Conc.InferProps Verif.Conc.Claim Verif.Conc.ClaimProps Verif.Conc.CurrentFlags.
 Local Open Scope string_scope.
 
 Lemma translator_classified_everything : unknown = [].
@@ -92,3 +93,101 @@ End Current.
 Theorem current_postprocess_order_independent m ord1 ord2 : map_order ord1 -> map_order ord2 ->
   post_process sorted_apps ord1 m = post_process sorted_apps ord2 m.
 Proof. apply (proj2 (order_independent_iff_sorted sorted_apps)). exact apps_sorted. Qed.
+
+(* ================= round 3 ================= *)
+
+(* inferTypes: the views of an application are walked in the order of their names, and the AnonType_<n>__ counter runs through
+   all views of the application (before the repair C07-4: the map itself, counter 0 for every view - refuted in InferProps) *)
+Lemma views_sorted : sorted_views = true.
+Proof. reflexivity. Qed.
+Lemma anon_counter_per_app : per_app_counter = true.
+Proof. reflexivity. Qed.
+Lemma infer_shape_is : infer_views_order = "sorted" /\ anon_counter_scope = "per-app".
+Proof. split; reflexivity. Qed.
+
+
+(* parse.Parser: two fields are configuration (written by their setters only), three are accumulators that view inference
+   stores into; nothing else of a Parser is written after NewParser.  The accumulators are what a Parser value shared by two
+   compilations would share (Infer.p_lets models LetTypes; the guard is the one Infer.stmt_step has) *)
+Lemma parser_fields_are : parser_field_writers = [
+  ("AssignTypes", ["inferExprType"]); ("LetTypes", ["inferExprType"]); ("Messages", ["inferExprType"]);
+  ("allowAbsoluteImport", ["RestrictToLocalImport"]); ("Settings", ["Set"]) ].
+Proof. reflexivity. Qed.
+Lemma let_guard_is : let_guard = "seen:skip;new:infer+record".
+Proof. reflexivity. Qed.
+(* the accumulators are mentioned by inferExprType and their getters only; of the three, inferExprType READS LetTypes (the guard
+   above) - AssignTypes is stored into, Messages appended to: neither can reach the module *)
+Lemma parser_field_users_are : parser_field_users = [
+  ("AssignTypes", ["inferExprType"; "GetAssigns"]); ("LetTypes", ["inferExprType"; "GetLets"]);
+  ("Messages", ["inferExprType"; "GetMessages"]) ].
+Proof. reflexivity. Qed.
+
+(* ... and no code under pkg/ and cmd/ shares one: every NewParser() / NewTreeShapeListener() value is a local of the
+   function that makes it (or used on the spot), never handed to a go statement nor stored in a field or package variable.
+   A new site that does otherwise fails here. *)
+Definition per_call (class:string) : bool :=
+  String.eqb class "local" || String.prefix "chained:" class || String.prefix "arg:" class.
+Lemma parser_values_are_per_call :
+  forallb (fun s => match s with (_, _, class) => per_call class end) parser_value_sites = true /\ parser_value_sites <> [].
+Proof. split; [reflexivity|discriminate]. Qed.
+Lemma listener_values_are_per_call :
+  forallb (fun s => match s with (_, _, class) => per_call class end) listener_sites = true /\
+  In ("pkg/parse/parse.go", "Parse", "local") listener_sites.
+Proof. split; [reflexivity|cbn; tauto]. Qed.
+
+(* the retrieved-file table is a local of Parse, and collectSpecs touches its map between Lock and Unlock only: look-up,
+   early exit of a later claimant (Unlock, return), store of the first claimant, Unlock - and only then the blocking read *)
+Lemma retrieved_table_is : retrieved_decl = "local of Parse" /\
+  retrieved_protocol = ["Lock"; "table"; "if:has"; "{"; "Unlock"; "return"; "}"; "table-store"; "Unlock"; "read-file";
+                        "spawn-children"; "return"; "wait-children"; "return"].
+Proof. split; reflexivity. Qed.
+
+(* what identifies an import: the spelling as the listener resolved it, with backslashes shown as slashes and the version cut
+   off - no folding of letter case, no other normalisation (Claim.claim's idx is the identity on spellings without \ and @) *)
+Lemma file_index_is : file_index_shape = [
+  "fileNameToIndex: ret := cleanImportFilename(filename)";
+  "fileNameToIndex: i := strings.Index(ret, ""@"")";
+  "fileNameToIndex: if i > -1 { ret = ret[:i] }";
+  "fileNameToIndex: return retrievedListIndex(ret)";
+  "cleanImportFilename: return strings.ReplaceAll(filename, `\`, `/`)" ].
+Proof. reflexivity. Qed.
+
+(* every `range` over a map in the hand-written files of pkg/parse (C19's classifier on typed ASTs): the reviewed list.
+   postProcess and inferTypes collect-and-sort; the mixin loops and mergeAttrs store under the key they range over;
+   the remaining ones log, lint, or merge attributes key by key (see notes/C07.md).  A new map range changes this list. *)
+Lemma parse_map_ranges_are : parse_map_ranges = [
+  ("linter.go:TreeShapeListener.lintEndpoint", "locations", "Delegate");
+  ("linter.go:TreeShapeListener.lintEndpoint", "*s.linter.calls", "Delegate");
+  ("linter.go:TreeShapeListener.lintEndpoint", "*appData.rec", "Delegate");
+  ("linter.go:TreeShapeListener.lintEndpoint", "*endpointData.rec", "Delegate");
+  ("linter.go:TreeShapeListener.lintAppDefs", "s.linter.apps", "Delegate");
+  ("linter.go:TreeShapeListener.lintAppDefs", "*apps", "CollectSort");
+  ("linter.go:TreeShapeListener.lintAppDefs", "data.locations", "Emit");
+  ("listener_impl.go:mergeAttrsWithPrecendence", "newAttrs", "Emit");
+  ("listener_impl.go:TreeShapeListener.EnterTable_def", "attrs", "Emit");
+  ("listener_impl.go:mergeAttrs", "src", "MapInsert");
+  ("parse.go:collectorPubSubCalls", "app.Endpoints", "Emit");
+  ("parse.go:checkEndpointCalls", "mod.Apps", "Emit");
+  ("parse.go:checkEndpointCalls", "app.Endpoints", "Emit");
+  ("parse.go:Parser.inferTypes", "views", "CollectSort");
+  ("parse.go:fixParamTypeRef", "app.GetEndpoints()", "Delegate");
+  ("parse.go:Parser.postProcess", "mod.Apps", "CollectSort");
+  ("parse.go:Parser.postProcess", "srcApp.Types", "MapInsert");
+  ("parse.go:Parser.postProcess", "srcApp.Views", "MapInsert");
+  ("parse.go:Parser.postProcess", "app.Types", "Delegate");
+  ("parse.go:Parser.postProcess", "attrs", "Delegate");
+  ("parse.go:renestTypes", "app.Types", "CollectSort");
+  ("parse.go:getDefaultAppName", "mod.Apps", "Emit") ].
+Proof. reflexivity. Qed.
+
+(* the hand-written packages the compile path calls into (syslutil, pbutil, msg, env, importer, printer, sysl): none of their
+   package-level variables is ever assigned, address-taken or stored into in its package (constants in all but name) *)
+Lemma dep_globals_are_init_only :
+  forallb (fun g => match g with (_, _, class) => String.eqb class "init-only" end) dep_globals = true /\ dep_globals <> [].
+Proof. split; [reflexivity|discriminate]. Qed.
+
+(* ---------- the general theorems at the current flags ---------- *)
+Theorem current_pp_order_independent m ordA1 ordA2 ordV1 ordV2 lets0 :
+  map_order ordA1 -> map_order ordA2 -> vmap_order ordV1 -> vmap_order ordV2 ->
+  pp current_flags ordA1 ordV1 lets0 m = pp current_flags ordA2 ordV2 lets0 m.
+Proof. apply pp_order_independent; [exact apps_sorted|exact views_sorted]. Qed.
